@@ -4,6 +4,7 @@ import FrappyProofs.Lemmas.NoEol
 import FrappyProofs.Lemmas.Senders
 import FrappyProofs.Lemmas.Indep
 import FrappyProofs.Lemmas.PeerGone
+import FrappyModel.Wire.ErrText
 import FrappyModel.Generated.C07
 /-
 C07 — property theorems (nothing but property theorems and their non-vacuity examples).
@@ -623,7 +624,7 @@ theorem peer_gone_prefix (T : Tables) (L : Lib J) (d : Disp σ J) (st : σ) (chu
   obtain ⟨h1, _, h3⟩ := serve_eq_serveLines T L d chunks [] st
   have hr : r = serveLinesF T L d ⟨n, true⟩ st ls := by
     simp only [r, ls, serveF_eq_serveLinesF, hl]
-  obtain ⟨a, b, c, e, f⟩ := serveLinesF_spec T L d ls n st
+  obtain ⟨a, b, c, e, f, _⟩ := serveLinesF_spec T L d ls n st
   have hfull : full.outs = (serveLines T L d st ls).1 := by simp only [full, ls, h1, hl]
   have hfst : full.st = stateAfter T L d st ls := by simp only [full, ls, h3, hl]
   rw [hr, hfull]
@@ -648,7 +649,118 @@ theorem peer_gone_sound (T : Tables) (L : Lib J) (d : Disp σ J) (laws : LibLaws
   rw [← h1]
   exact ((List.take_prefix n _).filter _).map _
 
+
+/-- **peer_gone_partial** — the `sendall` call number `n` (counted from 0; any `n`) raises after `k` bytes of
+its frame have gone out (a time-out with the output buffer full, a reset in the middle of a frame; any `k`
+short of the whole frame), any stream, segmentation and dispatcher: the torn frame is frame `n` of the run in
+which no send fails, and what the peer has received, cut at its newlines, is exactly the `n` frames delivered
+before — whole lines — followed by an unterminated rest without newline (the head of the torn frame).  Nothing
+follows the torn frame: `send_reply` does not touch the socket once a send has failed, whether or not the
+socket would accept data again. -/
+theorem peer_gone_partial (T : Tables) (L : Lib J) (d : Disp σ J) (laws : LibLaws L) (tf : TableNoEol T)
+    (hd : DispFits T L d) (st : σ) (chunks : List Bytes) (n k : Nat)
+    (hk : ∀ o, (serveF T L d ⟨n, true⟩ [] st chunks).torn = some o → k < (encodeFrame L o.msg).length) :
+    let r := serveF T L d ⟨n, true⟩ [] st chunks
+    let full := serve T L d [] st chunks
+    r.torn = full.outs[n]?
+    ∧ r.outs = full.outs.take n
+    ∧ IsFraming (received L r k) (r.outs.map (fun o => rstripSp (joined L o.msg)))
+        (match r.torn with
+          | some o => (encodeFrame L o.msg).take k
+          | none => []) := by
+  intro r full
+  have hf := splitLines_isFraming chunks.flatten
+  obtain ⟨hl, _⟩ := feed_lines_are_the_lines chunks _ _ hf
+  obtain ⟨h1, _, _⟩ := serve_eq_serveLines T L d chunks [] st
+  have hr : r = serveLinesF T L d ⟨n, true⟩ st (splitLines chunks.flatten).lines := by
+    simp only [r, serveF_eq_serveLinesF, hl]
+  have hfull : full.outs = (serveLines T L d st (splitLines chunks.flatten).lines).1 := by simp only [full, h1, hl]
+  obtain ⟨a, _, _, _, _, t⟩ := serveLinesF_spec T L d (splitLines chunks.flatten).lines n st
+  have htorn : r.torn = full.outs[n]? := by rw [hr, hfull]; exact t
+  have houts : r.outs = full.outs.take n := by rw [hr, hfull]; exact a
+  have hno := frames_no_newline T L d laws tf hd st chunks
+  refine ⟨htorn, houts, ?_, ?_, ?_⟩
+  · simp only [received, wire, encodeFrame, List.map_map, Function.comp_def]
+    cases r.torn <;> rfl
+  · intro l hlm
+    obtain ⟨o, ho, rfl⟩ := List.mem_map.1 hlm
+    rw [houts] at ho
+    exact hno o (List.mem_of_mem_take ho)
+  · cases ht : r.torn with
+    | none => simp
+    | some o =>
+      have hmem : o ∈ full.outs := by
+        rw [htorn] at ht
+        exact List.mem_of_getElem? ht
+      have hklt := hk o ht
+      simp only [encodeFrame, List.length_append, List.length_singleton] at hklt
+      simp only [encodeFrame]
+      rw [List.take_append_of_le_length (by omega)]
+      exact fun hm => hno o hmem (List.mem_of_mem_take hm)
+
 end gone
+
+/-! ## The text of an error report (`str(err)` in the `except` clauses of the request loop) -/
+
+section errtext
+
+/-- the usual error — a class registered for its SECoP name, raised with one argument, having passed at most
+one read / write wrapper: the text is the text of the argument alone -/
+theorem error_text_usual (e : ErrInfo) (a : ErrArg) (hr : e.registered = true) (hm : e.methods.length ≤ 1)
+    (ha : e.args = [a]) : errText e = a.str := by
+  have hd : e.methods.dropLast = [] := by
+    match hme : e.methods, hm with
+    | [], _ => rfl
+    | [_], _ => rfl
+    | _ :: _ :: _, h => simp at h
+  simp [errText, formatError, errPrefix, shownMethods, hr, hd, inMethods, strip, lstrip, rstrip, ha, excStr]
+
+/-- **error_text_any_args** — an error raised with any arguments (none, one, several; of any kind — only `str()` and
+`repr()` of the objects are used): the text is defined, it ends with `BaseException.__str__` of the arguments
+(nothing, the argument's own text, or the text of the tuple), and in front of that stands nothing or a prefix
+ending in `": "` that does not depend on the arguments -/
+theorem error_text_any_args (s : Bool) (e : ErrInfo) :
+    formatError s e = excStr e.args
+    ∨ ∃ p, p ≠ [] ∧ (∀ args, formatError s { e with args := args } = p ++ [58, 32] ++ excStr args) := by
+  by_cases h : errPrefix s e = []
+  · exact .inl (by simp [formatError, h])
+  · refine .inr ⟨errPrefix s e, h, fun args => ?_⟩
+    have : errPrefix s { e with args := args } = errPrefix s e := rfl
+    simp [formatError, this, h]
+
+/-- the three shapes of `BaseException.__str__` -/
+theorem exc_str_shapes :
+    excStr [] = []
+    ∧ (∀ a, excStr [a] = a.str)
+    ∧ (∀ a b rest, excStr (a :: b :: rest) = [40] ++ joinComma ((a :: b :: rest).map (·.repr)) ++ [41]) :=
+  ⟨rfl, fun _ => rfl, fun _ _ _ => rfl⟩
+
+/-- a class that is not the registered one for its name (`ProgrammingError`, `ConfigError`, a subclass defined by a driver)
+shows its Python class name in front -/
+theorem error_text_unregistered (s : Bool) (e : ErrInfo) (hr : e.registered = false) (hn : e.typeName ≠ []) :
+    e.typeName <+: formatError s e := by
+  have hp : errPrefix s e ≠ [] := by
+    simp only [errPrefix, hr]
+    intro h
+    exact hn (List.append_eq_nil_iff.1 h).1
+  simp only [formatError, hp, ↓reduceIte]
+  simp only [errPrefix, hr, Bool.false_eq_true, ↓reduceIte, List.append_assoc]
+  exact List.prefix_append _ _
+
+-- `CommunicationFailedError(OSError(5, 'x'))` raised in `write_target` of module `m`: the text of the OSError
+example : errText ⟨true, [67], [[109, 46, 119]], [⟨[91, 53, 93, 32, 120], [79, 40, 53, 41]⟩]⟩ = [91, 53, 93, 32, 120] := by
+  decide
+-- `HardwareError('a', 7)`: the text of the tuple `('a', 7)`
+example : errText ⟨true, [72], [], [⟨[97], [39, 97, 39]⟩, ⟨[55], [55]⟩]⟩ = [40, 39, 97, 39, 44, 32, 55, 41] := by decide
+-- `HardwareError()`: empty text
+example : errText ⟨true, [72], [], []⟩ = [] := by decide
+-- `ProgrammingError(3)` that has passed `m.read_v` and `n.read_w`: `ProgrammingErrorin m.read_v: 3` (the quirk)
+example : errText ⟨false, [80], [[109], [110]], [⟨[51], [51]⟩]⟩ = [80, 105, 110, 32, 109, 58, 32, 51] := by decide
+example : ∃ (e : ErrInfo) (a : ErrArg), e.registered = true ∧ e.methods.length ≤ 1 ∧ e.args = [a] :=
+  ⟨⟨true, [72], [[109]], [⟨[120], [39, 120, 39]⟩]⟩, ⟨[120], [39, 120, 39]⟩, rfl, by decide, rfl⟩
+example : ∃ e : ErrInfo, e.registered = false ∧ e.typeName ≠ [] := ⟨⟨false, [80], [], []⟩, rfl, by decide⟩
+
+end errtext
 
 /-! ## Strict JSON (recorded finding `C07:strict_json:nan-token`) -/
 
@@ -891,5 +1003,26 @@ example :
      (serveF tables L0 d0 ⟨4, true⟩ [] () [[120, 10, 10, 121, 10]]).outs.length,
      (serveF tables L0 d0 ⟨4, true⟩ [] () [[120, 10, 10, 121, 10]]).done,
      (serveF tables L0 d0 ⟨4, true⟩ [] () [[120, 10, 10, 121, 10]]).sock) = (14, 4, 2, ⟨0, false⟩) := by decide
+
+/-- non-vacuity of `peer_gone_partial`: the same run when the fifth `sendall` writes 3 bytes of its frame `_ 4 f`
+and raises: the peer has four whole lines and the rest `_ 4`; the monitor accepts that, and rejects what a peer
+receives when the loop goes on sending after the torn frame (`_ 4` directly followed by the next frames) -/
+example :
+    ((serveF tables L0 d0 ⟨4, true⟩ [] () [[120, 10, 10, 121, 10]]).torn.map (fun o => encodeFrame L0 o.msg),
+     (splitLines (received L0 (serveF tables L0 d0 ⟨4, true⟩ [] () [[120, 10, 10, 121, 10]]) 3)).lines.length,
+     (splitLines (received L0 (serveF tables L0 d0 ⟨4, true⟩ [] () [[120, 10, 10, 121, 10]]) 3)).rest)
+    = (some [95, 32, 52, 32, 102, 10], 4, [95, 32, 52]) := by decide
+
+example : ∀ o, (serveF tables L0 d0 ⟨4, true⟩ [] () [[120, 10, 10, 121, 10]]).torn = some o
+    → 3 < (encodeFrame L0 o.msg).length := by decide
+
+-- requests `ping a`, `ping b`; received `pong a\n` and the head `pon` of the second reply: accepted
+example : judgeReceived tables [112, 105, 110, 103, 32, 97, 10, 112, 105, 110, 103, 32, 98, 10] [112, 111, 110, 103, 32, 97, 10, 112, 111, 110] [(true, true)] = .ok := by decide
+-- the loop went on after the torn frame: `pon` directly followed by the reply that was sent next
+example : judgeReceived tables [112, 105, 110, 103, 32, 97, 10, 112, 105, 110, 103, 32, 98, 10, 112, 105, 110, 103, 32, 99, 10] [112, 111, 110, 103, 32, 97, 10, 112, 111, 110, 112, 111, 110, 103, 32, 99, 10] [(true, true), (true, true)]
+    = .misfit 1 := by decide
+-- torn inside the data part: the line fits by action and specifier, its data part is no JSON (flag of the harness)
+example : judgeReceived tables [112, 105, 110, 103, 32, 97, 10, 112, 105, 110, 103, 32, 98, 10] [112, 111, 110, 103, 32, 97, 32, 91, 110, 117, 112, 111, 110, 103, 32, 98, 32, 91, 110, 117, 108, 108, 93, 10] [(true, false)]
+    = .notStrict 0 := by decide
 
 end Frappy.Props.C07
